@@ -177,24 +177,34 @@ def r7_decoders_behind_retry(ck, F, R="C11-R7"):
     ads = retry_adapters(ck, F, R)
     dn = F.body(A("decompress"))
     reader = dn.arg_name(2)
+
+    def behind_adapter(e, under=False):
+        """every occurrence of the caller's reader in e lies inside a retry-adapter aggregate"""
+        if e.k == "arg" and e.x.get("name") == reader:
+            return under
+        u = under or (e.k == "agg" and e.x.get("adt") in ads)
+        return all(behind_adapter(c, u) for c in e.a)
+    # stated on every call of `decompress` that is handed the reader (per-codec helper, or a helper the pinned tree
+    # does not have spliced into the arm): the reader appears only inside the adapter, or raw in std's read_to_end
     n = 0
     for s, c, t in dn.calls():
         if c is None:
             continue
         p = callee_name(c)
-        helper = p.startswith("compression::") and p.endswith("_decompress")
-        rte = p.endswith("Read::read_to_end")
-        if not helper and not rte:
+        args = dn.arg_exprs(s)
+        hit = [a_ for a_ in args if a_.mentions_arg(reader)]
+        if not hit:
+            continue
+        st = hit[0].strip()
+        if st.k == "agg" and st.x.get("adt") in ads and p.endswith(("::new",)) and not p.startswith(("snap::", "flate2::", "lz4_flex::", "zstd::")):
             continue
         n += 1
-        a0 = dn.arg_exprs(s)[0]
-        st = a0.strip()
-        wrapped = st.k == "agg" and st.x.get("adt") in ads and len(st.a) == 1 and is_arg(st.a[0], reader)
-        in_memory = not a0.mentions_arg(reader)
-        if rte and not wrapped and is_arg(a0, reader):
+        rte = p.endswith("Read::read_to_end")
+        wrapped = all(behind_adapter(a_) for a_ in hit)
+        if rte and not wrapped and is_arg(args[0], reader):
             wrapped = True      # std's own read_to_end retries Interrupted: the raw reader is fine there
-        ck.ob(R, f"reader-behind-retry/{p.rsplit('::', 1)[-1]}", wrapped or in_memory, f"{p.rsplit('::', 1)[-1]} receives {a0.show()[:70]}: the caller's reader wrapped in the retry adapter" + ("" if wrapped or in_memory else " — NOT: the raw reader is handed to a decoder; an interrupted read can corrupt or abort the decoding"), dn, s)
-    ck.floor(R, "reader hand-over sites in decompress", n, 6, F.config)
+        ck.ob(R, f"reader-behind-retry/{p.rsplit('::', 1)[-1]}", wrapped, f"{p.rsplit('::', 1)[-1]} receives {hit[0].show()[:70]}: the caller's reader wrapped in the retry adapter" + ("" if wrapped else " — NOT: the raw reader is handed to a decoder; an interrupted read can corrupt or abort the decoding"), dn, s)
+    ck.floor(R, "reader hand-over sites in decompress", n, 2, F.config)
     callers = sorted({b.path for b in F.user_bodies() for s, c, t in b.calls() if c and callee_name(c).startswith("compression::") and callee_name(c).endswith("_decompress")})
     ck.ob(R, "decoders-only-from-decompress", callers == [A("decompress")], f"the *_decompress helpers are called only from decompress ({callers})", config=F.config)
 
@@ -232,7 +242,9 @@ def r4_bounded_body(ck, F, R="C11-R4"):
         raw = [n for n in names if n == "std::io::Read::read"]
         ck.ob(R, f"decoder-input/{stem}", not raw, f"{p} reads its input through {[n.rsplit('::', 2)[-2:] for n in names if 'read' in n.lower() or 'decode' in n.lower() or 'Decoder' in n][:4]}", d, nontrivial=False)
     dn = F.body(A("decompress"))
-    rt = [s for s, c, t in calls(dn, "Read::read_to_end")]
+    from .c01 import dispatch_table
+    none_arm = {s_ for s_, n_, t_ in dispatch_table(dn, dn.arg_name(1))[2].get("None", [])}
+    rt = [s for s, c, t in calls(dn, "Read::read_to_end") if s in none_arm]
     ck.ob(R, "uncompressed-body-read-to-end", len(rt) == 1 and dn.arg_exprs(rt[0])[0].mentions_arg(dn.arg_name(2)) and is_arg(dn.arg_exprs(rt[0])[1], dn.arg_name(3)), "CompressionType::None: data.read_to_end(out) on the bounded reader", dn)
 
 
